@@ -13,7 +13,7 @@
        - every result is exactly one of Changed / Updated / Noop / Rejected;
        - Noop and Rejected leave the state untouched (but for the applied index);
        - Changed raises the revision by exactly one; Updated keeps revision and logical state;
-       - before init nothing is persisted and every command but a successful init is rejected;
+       - before init nothing is persisted and nothing but a successful init changes the state;
        - every published / persisted state passes Validate and carries its checksum,
          published = persisted = FinalState, applied index = max(previous, entry index);
      every scenario:
@@ -66,7 +66,7 @@ Section Obs.
          (r_rev r =? o_rev post) && oo_eq (st_final s) post
          && (if o_rev post =? 0
              then o_eq post pre && oo_none (st_store s) && oo_none (st_saved s)
-                  && (r_class r =? cRejected) && (r_applied r =? idx)
+                  && (r_applied r =? (if r_class r =? cRejected then idx else o_applied post))
              else o_valid post && o_ckok post && (r_applied r =? o_applied post)
                   && (o_applied post =? N.max (o_applied pre) idx)
                   && oo_eq (st_store s) post && oo_eq (st_saved s) post)
